@@ -18,7 +18,7 @@ RULE = ('Floyd: the structured 7-10 node family of bctmc/named.py (binary, lengt
         '{1,1/2,1/4} with inv and log, the exact near-tie alphabets {1,2,2+2^-20} and {1,2^20,2^20+1}, and the float near-tie alphabets {0.1,0.2,0.3} / {0.2,0.4,0.6} (0.1+0.2 != 0.3 in '
         'binary floating point), lengths {1,2} on all 59 049 5-node graphs, every ordered (s,t) (thorough: lengths {1,2} on all 4-node digraphs); '
         'navigation: binary L on 4 nodes x all symmetric D over {1,2,3}, L over {0,1,2} x D over {1,2}, max_hops in '
-        '{None,1,2,3} (thorough: L over {0,1,2} x all D over {1,2,3}; 5-node binary L x D over {1,2}); non-trivial = '
+        '{None,1,2,3}, and binary / {1,2}-length L on 3 nodes x ALL (also asymmetric) D over {1,2,3} / {1,2} (thorough: L over {0,1,2} x all D over {1,2,3}; 5-node binary L x D over {1,2}); non-trivial = '
         'Floyd: graph with an unreachable pair and a tie between different hop counts, navigation: instance with both a '
         'failed and a multi-hop successful pair')
 ASSUMPTIONS = ['float64 inputs; navigation_wu is exercised on undirected L only (its documented "_wu" domain; on '
@@ -49,6 +49,10 @@ NAV = {
     'nav_len4_D12': (4, (0, 1, 2), (1, 2), 'q'),
     'nav_len4_D123': (4, (0, 1, 2), (1, 2, 3), 't'),
     'nav_bin5_D12': (5, (0, 1), (1, 2), 't'),
+    # asymmetric inter-node distances (one-way travel times): the summed distance follows the direction of the walk
+    'nav_bin3_Dasym123': (3, (0, 1), (1, 2, 3), 'q', True),
+    'nav_len3_Dasym12': (3, (0, 1, 2), (1, 2), 'q', True),
+    'nav_bin4_Dasym12': (4, (0, 1), (1, 2), 't', True),
 }
 MAX_HOPS = (None, 1, 2, 3)
 
@@ -64,7 +68,8 @@ def plan(ctx):
     for tag in ('bin_und', 'bin_dir', 'len_und', 'len_dir', 'neartie_und', 'neartie_dir'):
         for (a, b) in ss.ranges(len(named.family(tag)), 8):
             units.append(('named', tag, a, b))
-    for name, (n, la, da, tier) in NAV.items():
+    for name, spec in NAV.items():
+        n, la, da, tier = spec[:4]
         if tier == 't' and not ctx.thorough:
             continue
         tot = ss.und_count(n, la)
@@ -213,11 +218,12 @@ def work(unit):
                     if idx % 307 == 9:
                         t.sample(case, order=-n * 10 ** 7 + idx)
     else:
-        n, la, da, _ = NAV[name]
+        n, la, da = NAV[name][:3]
+        asym = len(NAV[name]) > 4
         for idx in range(a, b):
             L = ss.und_graph(n, la, idx)
-            for didx in range(ss.und_count(n, da)):
-                Dm = ss.und_graph(n, da, didx)
+            for didx in range(ss.dir_count(n, da) if asym else ss.und_count(n, da)):
+                Dm = ss.dir_graph(n, da, didx) if asym else ss.und_graph(n, da, didx)
                 for mh in MAX_HOPS:
                     case = {'family': name, 'index': idx, 'L': L, 'D_index': didx, 'D': Dm, 'max_hops': mh}
                     if check_nav(t, L, Dm, mh, case):
